@@ -161,10 +161,12 @@ def run(ctx):
     scns_f, st2 = scen.generate(ctx, None, ("MC_EKF", "MC_C08fn_sim.cfg"), sim_num=(16 if quick else 500), sim_depth=100)
     # large programs: 12-15 grown nodes, 3 states, up to 5 readings -- blocks with more than ten temporaries
     scns_b, st3 = scen.generate(ctx, None, ("MC_EKF", "MC_C08big_sim.cfg"), sim_num=(16 if quick else 300), sim_depth=140)
-    for s_, st_ in ((scns_r, st1), (scns_f, st2), (scns_b, st3)):
+    # |shared term|: sqrt(t^2) around compound sub-expressions that are also used elsewhere and take both signs
+    scns_a, st4 = scen.generate(ctx, None, ("MC_EKF", "MC_C08abs_sim.cfg"), sim_num=(16 if quick else 300), sim_depth=100)
+    for s_, st_ in ((scns_r, st1), (scns_f, st2), (scns_b, st3), (scns_a, st4)):
         if s_ is None:
             ctx.violation("spec-invariant", st_["tlc_violation"][:800], st_)
-    scns = (scns_b or []) + (scns_r or []) + (scns_f or [])
+    scns = (scns_b or []) + (scns_a or []) + (scns_r or []) + (scns_f or [])
     # fixed input of the recorded finding F1 (known_findings.json): exercised on every run
     c = json.load(open("/verif/corpus/F1_acos_tanh8.json"))["scenario"]
     c["_id"] = "corpus:F1_acos_tanh8"
@@ -219,7 +221,7 @@ def run(ctx):
            "programs_with_temporaries": with_tmp, "unparsable_dropped": ndrop,
            "max_temporaries_in_one_program": max([len(e["prefix"]) for e in events] or [0]),
            "programs_with_more_than_10_temporaries": sum(1 for e in events if len(e["prefix"]) > 10),
-           "states": st1.get("states", 0) + st2.get("states", 0) + st3.get("states", 0) + (tres.distinct if tres else 0),
+           "states": st1.get("states", 0) + st2.get("states", 0) + st3.get("states", 0) + st4.get("states", 0) + (tres.distinct if tres else 0),
            "values_python": c_py, "values_cpp": c_cpp, "interp_values_cross_checked": nfn,
            "evaluations": len(events), "distinct_nontrivial": with_tmp,
            "rule": "program = one compiled block (model, process/control Jacobian, sensor model, sensor Jacobian) of one definition, Python with CSE "
